@@ -478,17 +478,18 @@ func (h *backendHandler) decodeRequest(obs *BackendObs) {
 		}
 		return h.schema.newMessage(md.Input())
 	}
-	decode := func(payload []byte, what string) {
+	decode := func(payload []byte, what string) bool {
 		m := newReq()
 		if m == nil {
-			return
+			return true
 		}
 		if err := refUnmarshal(obs.Codec, payload, m); err != nil {
 			obs.Undecodable = append(obs.Undecodable, fmt.Sprintf("%s does not decode as %s: %v", what, obs.Codec, err))
 			obs.problem("%s does not decode as %s: %v", what, obs.Codec, err)
-			return
+			return false
 		}
 		obs.Msgs = append(obs.Msgs, canonBytes(m))
+		return true
 	}
 	switch {
 	case obs.Stream:
@@ -514,7 +515,9 @@ func (h *backendHandler) decodeRequest(obs *BackendObs) {
 					break
 				}
 			}
-			decode(payload, fmt.Sprintf("request frame %d", i))
+			if !decode(payload, fmt.Sprintf("request frame %d", i)) {
+				break // like a real peer, stop at the first frame that does not decode
+			}
 		}
 		if len(rest) > 0 {
 			obs.Undecodable = append(obs.Undecodable, fmt.Sprintf("stream ends inside a frame (%d stray bytes)", len(rest)))
@@ -819,7 +822,11 @@ func (h *backendHandler) renderResponse(st *rpcState, obs *BackendObs, override 
 				rr.status = 500
 			}
 			rr.headers.Set("Content-Type", "application/json")
-			rr.body, _ = refMarshal("json", statusProto(errSpec))
+			var merr error
+			rr.body, merr = refMarshal("json", statusProto(jsonExpressible(errSpec)))
+			if merr != nil {
+				panic(fmt.Sprintf("REST backend cannot render its error: %v", merr))
+			}
 			break
 		}
 		rr.headers.Set("Content-Type", "application/json")
